@@ -41,6 +41,9 @@ class Hist05:
         self.ever_used, self.dropped = set(), set()
         self.cand = {}      # (disk, position) -> padded blocks ever recorded there (candidates for what the parity encodes)
 
+    def sopts(self):
+        return ['--force-empty', '--force-zero', getattr(self, 'hashflag', '--test-force-murmur3')]
+
     # ------------------------------------------------------------------------------------------- operations
     def do(self, op):
         """execute one logged operation; returns the Result for tool commands"""
@@ -71,24 +74,39 @@ class Hist05:
             if os.path.isfile(p):
                 os.utime(p, ns=(op[3], op[3]))
         elif k == 'sync':
-            r = a.run('sync', *(SYNC_OPTS + list(op[1:])))
+            r = a.run('sync', *(self.sopts() + list(op[1:])))
             self.after_sync(r)
             return r
         elif k == 'sync_run':
             _, what, d, n = op[:4]
             p = a.path(d, n)
             cmd = {'touch': 'touch -d 2001-01-01 "%s"' % p, 'rm': 'rm -f "%s"' % p}[what]
-            r = a.run('sync', *(SYNC_OPTS + ['--test-run', cmd] + list(op[4:])))
+            r = a.run('sync', *(self.sopts() + ['--test-run', cmd] + list(op[4:])))
             self.after_sync(r)
             return r
         elif k == 'sync_eio':
             _, d, n, kth = op[:4]
-            r = a.run('sync', *(SYNC_OPTS + list(op[4:])), shim_env={'VSHIM_FAIL': 'pread:%s:%d:5' % (a.path(d, n), kth)})
+            r = a.run('sync', *(self.sopts() + list(op[4:])), shim_env={'VSHIM_FAIL': 'pread:%s:%d:5' % (a.path(d, n), kth)})
             self.after_sync(r)
             return r
         elif k == 'scrub':
             r = a.run('scrub', '-p', 'full')
             self.stats['cmds'] += 1
+            return r
+        elif k == 'scrub_part':
+            # a partial scrub: with a rehash pending it moves the scrubbed blocks (only) to the new hash
+            r = a.run('scrub', '-p', str(op[1]), '-o', '0')
+            self.stats['cmds'] += 1
+            self.note_content()
+            return r
+        elif k == 'rehash':
+            # schedule a hash migration: from now on every block carries the rehash flag until a sync / scrub processes it
+            self.hashflag = '--test-force-spooky2'
+            r = a.run('rehash', self.hashflag)
+            self.stats['cmds'] += 1
+            self.log[-1].append('rc=%d' % r.rc)
+            self.model = None         # a hash migration is not in the fix model: these histories are judged by the oracle only
+            self.note_content()
             return r
         elif k == 'damage':
             self.damage(op)
@@ -369,6 +387,105 @@ class Hist05:
         self.do(('damage', 'rm', 'd1', 'new'))
         self.do(rng.choice([('fix',), ('fix', '-m'), ('fix', '-d', 'd1')]))
 
+    # ---- histories with a hash migration in progress --------------------------------------------------------------------------
+    def run_rehash(self):
+        """first sync with murmur3, `rehash` to spooky2 (every block flagged), optionally a partial scrub / sync that migrates SOME
+        blocks, then the usual rounds: files rewritten (same or other size) / added / deleted, a sync that does not reach every
+        stripe (-S / -B / killed / EIO / file touched during the sync), damage with a spare parity level, fix"""
+        rng, a = self.rng, self.arr
+        bs = a.bs
+        for d in a.disks:
+            for n in rng.sample(NAMES[:6], rng.randint(2, 3)):
+                self.do(('write', d, n, rng.choice([bs, bs, 2 * bs, 2 * bs - 5, 3000, 1]), rng.getrandbits(32)))
+        if self.do(('sync',)).rc != 0:
+            return
+        if self.do(('rehash',)).rc != 0:
+            return
+        c = rng.random()
+        if c < 0.25:
+            self.do(('scrub_part', rng.choice([30, 50, 70])))
+        elif c < 0.4:
+            self.do(('sync', '-B', str(rng.randint(1, 2))))
+        for rd in range(rng.randint(1, 2)):
+            try:
+                st = a.content()
+            except Exception:
+                return
+            files = [(d, f) for d, dd in sorted(st['disks'].items()) for f in dd['files']]
+            victims = rng.sample(files, min(len(files), rng.randint(1, 2)))
+            for d, f in victims:
+                size = f['size'] if rng.random() < 0.7 else rng.choice([bs, 2 * bs, 100, 2 * bs + 7])
+                self.do(('write', d, sub2rel(f['sub']), size, rng.getrandbits(32)))
+            if rng.random() < 0.3:
+                self.do(('write', rng.choice(a.disks), 'new%d' % rd, rng.choice([bs, 3000]), rng.getrandbits(32)))
+            if rng.random() < 0.2 and files:
+                d, f = rng.choice(files)
+                self.do(('remove', d, sub2rel(f['sub'])))
+            c = rng.random()
+            if c < 0.45:
+                self.do(('sync', '-S', str(rng.randint(1, 3))))
+            elif c < 0.6:
+                self.do(('sync', '-B', str(rng.randint(1, 2))))
+            else:
+                self.do(self.gen_sync())
+            if not os.path.exists(a.content_files[0]):
+                return
+            if rng.random() < 0.7:
+                for d, f in victims:
+                    if rng.random() < 0.8:
+                        self.do(('damage', 'rm', d, sub2rel(f['sub'])))
+            else:
+                for op in self.gen_damage():
+                    if op[1] != 'parity':
+                        self.do(op)
+            if a.np > 1 and rng.random() < 0.25:
+                self.do(('damage', 'parity', rng.randrange(a.np), rng.choice(['garbage', 'delete', 'truncate']), rng.getrandbits(32)))
+            self.do(rng.choice([('fix',), ('fix',), ('fix', '-m'), ('fix', '-d', rng.choice(a.disks))]))
+
+    # ---- fragmented files with silent damage in several fragments, scrub, fix -e / -b / plain -----------------------------------
+    def run_fragment(self):
+        """one-or-two-block files on a disk, some of them deleted after a sync, then a larger file that the allocator spreads over
+        the freed positions AROUND the surviving files (several fragments); silent corruption (size and time-stamp kept) in
+        blocks of different fragments and in a neighbour, scrub (marks the stripes bad), then fix -e / -b / plain: every selected
+        damaged block must be repaired or the file reported"""
+        rng, a = self.rng, self.arr
+        bs = a.bs
+        d = rng.choice(a.disks)
+        names = ['a', 'b', 'c', 'e', 'g'][:rng.randint(3, 5)]
+        sizes = {}
+        for n in names:
+            sizes[n] = rng.choice([bs, bs, 2 * bs, bs - 7])
+            self.do(('write', d, n, sizes[n], rng.getrandbits(32)))
+        for od in a.disks:
+            if od != d:
+                self.do(('write', od, 'z', rng.randint(3, 8) * bs - rng.choice([0, 0, 11]), rng.getrandbits(32)))
+        if self.do(('sync',)).rc != 0:
+            return
+        gone = [n for k, n in enumerate(names) if k % 2 == 0]        # every other file: the freed positions are not contiguous
+        keep = [n for n in names if n not in gone]
+        for n in gone:
+            self.do(('remove', d, n))
+        nb = sum((sizes[n] + bs - 1) // bs for n in gone)
+        self.do(('write', d, 'f', nb * bs - rng.choice([0, 0, 5, 600]), rng.getrandbits(32)))
+        if self.do(('sync',)).rc != 0:
+            return
+        try:
+            st = a.content()
+        except Exception:
+            return
+        f = [x for x in st['disks'][d]['files'] if x['sub'] == b'f']
+        if not f:
+            return
+        f = f[0]
+        idxs = list(range(len(f['blocks'])))
+        hit = sorted(set([idxs[0], idxs[-1]] + rng.sample(idxs, min(len(idxs), rng.randint(0, 2)))))
+        for i in hit:
+            self.do(('damage', 'flip', d, 'f', i, rng.choice(['bit', 'byte', 'block', 'firstbyte']), rng.getrandbits(32)))
+        if keep and rng.random() < 0.6:
+            self.do(('damage', 'flip', d, rng.choice(keep), 0, rng.choice(['bit', 'byte']), rng.getrandbits(32)))
+        self.do(('scrub',))
+        self.do(rng.choice([('fix', '-e'), ('fix', '-e'), ('fix', '-b'), ('fix',)]))
+
     def replay(self, ops):
         for op in ops:
             op = [x for x in op if not (isinstance(x, str) and x.startswith('rc='))]
@@ -401,7 +518,19 @@ class Hist05:
                 # only the stripes marked bad are processed (and only synced files): a file without a bad block must not be touched,
                 # a file with one is repaired only there -- not judged as a whole file
                 bad = any(st['info'][pos] and st['info'][pos]['bad'] for s, pos, h in f['blocks'] if pos < len(st['info']))
-                sel = False if not bad else (sel and 'skip')
+                if not bad:
+                    sel = False
+                else:
+                    # when every block that differs from the recorded version lies in a stripe marked bad (damage found by a full
+                    # scrub) and the file is synced (size and time-stamp kept), -b repairs all of it: judged as a whole file
+                    v = before.get((d, rel))
+                    rec = self.arr.find_version(d, f)
+                    bs = self.arr.bs
+                    whole = False
+                    if v is not None and v[0] == 'f' and rec is not None and len(v[1]) == f['size'] and v[2] // 10**9 == f['sec'] and (f['nsec'] < 0 or v[2] % 10**9 == f['nsec']):
+                        diff = [k for k in range(len(f['blocks'])) if v[1][k * bs:(k + 1) * bs] != rec[k * bs:(k + 1) * bs]]
+                        whole = all(f['blocks'][k][1] < len(st['info']) and st['info'][f['blocks'][k][1]] and st['info'][f['blocks'][k][1]]['bad'] for k in diff)
+                    sel = sel if whole else (sel and 'skip')
                 i += 1
             elif o == '-e':
                 bad = any(st['info'][pos] and st['info'][pos]['bad'] for s, pos, h in f['blocks'] if pos < len(st['info']))
@@ -691,6 +820,8 @@ def main(tier, replay=None):
         jobs.append(((2, rng.choice([2, 2, 3]), None), rng.getrandbits(32), 'rep_chain'))
         jobs.append(((3, rng.choice([2, 2, 3, 4]), None), rng.getrandbits(32), 'rep_blk'))
         jobs.append(((rng.choice([2, 3]), rng.choice([2, 2, 3]), None), rng.getrandbits(32), 'kill_rewrite'))
+        jobs.append(((rng.choice([2, 3]), rng.choice([2, 2, 3]), None), rng.getrandbits(32), 'rehash'))
+        jobs.append(((rng.choice([2, 3]), rng.choice([1, 2, 2]), None), rng.getrandbits(32), 'fragment'))
 
     def one(job):
         H = Hist05(chk, binary, shim, model, job[0], job[1])
